@@ -1,6 +1,6 @@
 """C05 (lattice family; see latfam.py)."""
-from . import latfam
+from . import latfam, util
 
-globals().update(latfam.module('C05', ['C05_candidates_above_partial'],
+globals().update(latfam.module('C05', util.theorems('C05'),
     'contexts as C03; observation = per concept the sets of upper and lower neighbour positions (no repeats) and Context.neighbors(objs) (label and raw form) for all object subsets (<=6 quick / 9 thorough objects, else structured+random); non-trivial = a concept with upper covers of different sizes or a rejected candidate',
-    extra_targets=['Tie/Lindig.vo', 'Tie/Matrices.vo'], partial='minimality filter and converse links decided by the correspondence'))
+    extra_targets=['Tie/Lindig.vo', 'Tie/Matrices.vo'], partial=''))
